@@ -50,4 +50,107 @@ def redcN (rn : Nat) (up mp ip : List Nat) : List Nat × Bool :=
   let yres := mulmodBnm1 rn xp mp                             -- mpn_mulmod_bnm1 (yp, rn, xp, n, mp, n, ...)
   redcNCore rn up mp yres
 
+
+/-! ## memory areas
+
+An area is the list of its limbs; `store`/`load` are bounds-checked: an access that leaves the area
+returns `false` (and leaves the area unchanged / yields zeros).  The models below AND every such flag
+into their `ok`. -/
+
+def store (a : List Nat) (off : Nat) (d : List Nat) : List Nat × Bool :=
+  if off + d.length ≤ a.length then (a.take off ++ d ++ a.drop (off + d.length), true) else (a, false)
+
+def load (a : List Nat) (off len : Nat) : List Nat × Bool :=
+  if off + len ≤ a.length then ((a.drop off).take len, true) else (zeros len, false)
+
+/-! ## mpn_powm (powm.c:158-580), build without WANT_REDC_2 (config.h: no native addmul_2 / redc_2) -/
+
+/-- powm.c:211-222: `mip[0] = -modlimb_invert (mp[0])` below REDC_1_TO_REDC_N_THRESHOLD, else the
+    n-limb `mpn_binvert (mip, mp, n, tp)` (positive inverse). -/
+def mipOf (thr : Nat) (mp : List Nat) : List Nat :=
+  if mp.length < thr then [(B - modlimb_invert (mp.headD 1)) % B]
+  else toLimbs mp.length (binvert (val mp) mp.length)
+
+/-- MPN_REDC_1 (rp, tp, mp, n, mip[0]) / mpn_redc_n (rp, tp, mp, n, mip) on the 2n limbs `u` read from `tp`. -/
+def reduceL (thr : Nat) (nextSize : Nat → Nat) (mp mip u : List Nat) : List Nat × Bool :=
+  if mp.length < thr then (redc_1 u mp (mip.headD 0), true)
+  else redcN (nextSize mp.length) u mp mip
+
+/-- `mpn_mul_n (tp, a, b, n)` / `mpn_sqr (tp, a, n)` followed by the reduction of `tp[0..2n)`:
+    returns the n result limbs, the new `tp` and the access flag. -/
+def mulRed (red : List Nat → List Nat × Bool) (n : Nat) (tp a b : List Nat) : List Nat × List Nat × Bool :=
+  let (tp, ok1) := store tp 0 (toLimbs (2 * n) (val a * val b))     -- product: 2n limbs at tp
+  let (u, ok2) := load tp 0 (2 * n)                                  -- REDC reads tp[0..2n)
+  let (r, ok3) := red u
+  (r, tp, ok1 && ok2 && ok3)
+
+/-- `pp = TMP_ALLOC_LIMBS (n << (windowsize - 1))`: entry `i` is `pp[n·i .. n·i + n)`.  The table is kept
+    as the list of its entries; an access to entry `i` is inside the allocation iff `inPP n w i`. -/
+def inPP (n w i : Nat) : Bool := n * i + n ≤ n <<< (w - 1)
+
+structure St where
+  rp : List Nat      -- n limbs
+  tp : List Nat      -- the caller's scratch
+  ok : Bool
+
+/-- powm.c:244-259: `c` further odd powers; `j` = index of `this_pp`; `b2` = the limbs at `rp`. -/
+def precomp (red : List Nat → List Nat × Bool) (n w : Nat) (b2 : List Nat) :
+    Nat → Nat → List (List Nat) → List Nat → Bool → List (List Nat) × List Nat × Bool
+  | 0, _, pp, tp, ok => (pp, tp, ok)
+  | c + 1, j, pp, tp, ok =>
+      let x := pp.getD j (zeros n)
+      let p := mulRed red n tp x b2                       -- mpn_mul_n (tp, this_pp, rp, n)
+      -- this_pp += n; REDC (this_pp, tp, mp, n, mip)
+      precomp red n w b2 c (j + 1) (pp.set (j + 1) p.1) p.2.1 (ok && p.2.2 && inPP n w j && inPP n w (j + 1))
+
+/-- powm.c:224-259: `pp` allocated, `redcify`, `b^2` at `rp`, the odd powers.  Returns (pp, tp, ok). -/
+def powmTable (red : List Nat → List Nat × Bool) (n w : Nat) (tp : List Nat) (ok : Bool) (b m : Nat) :
+    List (List Nat) × List Nat × Bool :=
+  let pp := List.replicate (2 ^ (w - 1)) (zeros n)                  -- pp = TMP_ALLOC_LIMBS (n << (windowsize - 1))
+  let pp := pp.set 0 (toLimbs n ((b * B ^ n) % m))                  -- redcify (this_pp, bp, bn, mp, n)
+  let e0 := pp.getD 0 (zeros n)
+  let p := mulRed red n tp e0 e0                                    -- mpn_sqr (tp, this_pp, n); REDC (rp, tp)
+  precomp red n w p.1 (2 ^ (w - 1) - 1) 0 pp p.2.1 (ok && inPP n w 0 && p.2.2)
+
+/-- `MPN_SQR (tp, rp, n); MPN_REDUCE (rp, tp, mp, n, mip)` -/
+def sqrSt (red : List Nat → List Nat × Bool) (n : Nat) (s : St) : St :=
+  let p := mulRed red n s.tp s.rp s.rp
+  { rp := p.1, tp := p.2.1, ok := s.ok && p.2.2 }
+
+/-- `MPN_MUL_N (tp, rp, pp + n * (expbits >> 1), n); MPN_REDUCE (rp, tp, mp, n, mip)`; `t` = the table entry
+    as `tableSt` delivers it (its `ok` is the bounds check of the entry). -/
+def mulSt (red : List Nat → List Nat × Bool) (n : Nat) (s t : St) : St :=
+  let p := mulRed red n s.tp s.rp t.rp
+  { rp := p.1, tp := p.2.1, ok := s.ok && t.ok && p.2.2 }
+
+/-- `pp + n * i` read as n limbs (powm.c:271 `MPN_COPY (rp, pp + n * (expbits >> 1), n)` and :312). -/
+def tableSt (n w : Nat) (pp : List (List Nat)) (tp : List Nat) (ok : Bool) (i : Nat) : St :=
+  { rp := pp.getD i (zeros n), tp := tp, ok := ok && inPP n w i }
+
+/-- powm.c:559-577: conversion out of Montgomery form and canonicalisation. -/
+def powmFinish (red : List Nat → List Nat × Bool) (mp : List Nat) (s : St) : List Nat × Bool :=
+  let n := mp.length
+  let a := store s.tp 0 s.rp                                        -- MPN_COPY (tp, rp, n)
+  let b := store a.1 n (zeros n)                                    -- MPN_ZERO (tp + n, n)
+  let u := load b.1 0 (2 * n)
+  let r := red u.1                                                  -- REDC (rp, tp, mp, n, mip)
+  let rp := if cmp r.1 mp ≥ 0 then (sub_n r.1 mp).1 else r.1        -- if (mpn_cmp (rp, mp, n) >= 0) mpn_sub_n (rp, rp, mp, n)
+  (rp, s.ok && a.2 && b.2 && u.2 && r.2)
+
+/-- mpn_powm (rp, bp, bn, ep, en, mp, n, tp) with `tp` an area of `itch` limbs.
+    `thr` = REDC_1_TO_REDC_N_THRESHOLD, `nextSize` = mpn_mulmod_bnm1_next_size, `binvItch` = mpn_binvert_itch.
+    Returns `rp[0..n)` and `ok` (false if any access left `tp` or `pp`, or redc_n's recovery overflowed). -/
+def mpnPowmMem (thr : Nat) (nextSize binvItch : Nat → Nat) (itch : Nat) (bp ep mp : List Nat) : List Nat × Bool :=
+  let n := mp.length
+  let ebi := sizeinbase2 ep                                         -- MPN_SIZEINBASE_2EXP (ebi, ep, en, 1)
+  let w := win_size ebi                                             -- windowsize = win_size (ebi)
+  let tp := zeros itch
+  let mip := mipOf thr mp
+  let ok := if n < thr then true else decide (binvItch n ≤ itch)    -- mpn_binvert (mip, mp, n, tp) uses tp[0..binvert_itch(n))
+  let red := reduceL thr nextSize mp mip
+  let t := powmTable red n w tp ok (val bp) (val mp)
+  -- powm.c:261-314 through the generic window code (windowInit = lines 261-271, windowLoop = INNERLOOP)
+  let s := windowExp (sqrSt red n) (mulSt red n) (tableSt n w t.1 t.2.1 t.2.2) ep ebi w
+  powmFinish red mp s
+
 end Mpir.PowmL
